@@ -101,7 +101,11 @@ Definition route_is_ours (p : policy) (name : string) (proto : N) : bool :=
       else mem String.eqb name special
   end.
 
-Record config := { c_pol : policy; c_table : N; c_defproto : N; c_src : N; c_grace : N }.
+(* c_fixA / c_fixB select between the code as pinned (false) and the code with fixes/C17-*.patch applied (true);
+   the driver probes the tree it was built from and sets them, so the model follows the tree:
+     fixA: a failed per-interface route listing keeps the interface queued for rescan (resyncIface returns the error);
+     fixB: the per-interface resync forgets a tracked route only if the tracker believed it to be on that interface. *)
+Record config := { c_pol : policy; c_table : N; c_defproto : N; c_src : N; c_grace : N; c_fixA : bool; c_fixB : bool }.
 
 (* ---------- the world outside Felix: links, kernel routes, clock ---------- *)
 Record link := { l_idx : N; l_up : bool; l_running : bool }.
@@ -453,7 +457,10 @@ Definition resync_iface (cfg : config) (p : plan) (name : string) (w : world) : 
           if failed then
             (* error is filtered, logged and swallowed *)
             let '(fe, w4) := filter_error p name w3 in
-            (false, match fe with EDefault => mark_reopen w4 | _ => w4 end)
+            match fe with
+            | EDefault => (c_fixA cfg, mark_reopen w4)
+            | _ => (false, w4)
+            end
           else
             let rs := filter (fun kr => N.eqb (kr_ifx (snd kr)) idx) (table_routes cfg (w_env w3)) in
             let '(s4, seen) := absorb cfg now false rs (w_st w3) in
@@ -462,7 +469,12 @@ Definition resync_iface (cfg : config) (p : plan) (name : string) (w : world) : 
                 match lookup rkey_eqb (s_desired s4) k with
                 | Some d => N.eqb (kr_ifx d) idx
                 | None => false
-                end) (keys_of_iface s4 name) in
+                end &&
+                (negb (c_fixB cfg) ||
+                 match lookup rkey_eqb (s_dp s4) k with
+                 | Some r => N.eqb (kr_ifx r) idx
+                 | None => false
+                 end)) (keys_of_iface s4 name) in
             let s5 := upd_dp s4 (fold_left (fun m k => remove rkey_eqb m k) missing (s_dp s4)) in
             (false, wst w3 s5)
       end
